@@ -231,6 +231,21 @@ def segment_rules(chk, repo):
         g_ok = len(guards) == 1 and incs and ast.unparse(guards[0].test).replace(' ', '') == f'{incs[0].target.id}notindrop' \
             and not guards[0].orelse
         ok_s = len(incs) == 1 and len(all_incs) == 1 and g_ok
+    hx = []
+    for p in paths:
+        for e in p.calls('shape.hexagon'):
+            if id(e.node) not in {id(x.node) for x in hx}:
+                hx.append(e)
+    sib = len(hx) == 2
+    det = ''
+    for e in hx:
+        b = e.bound
+        good = b.get('rotate') == S('rotate') and b.get('antialias') == S('antialias') and b.get('radius') == S('seg_radius')
+        sib = sib and good and b.get('shape') == hx[0].bound.get('shape')
+        if not good:
+            det = f'hexagon(rotate={fmt(b.get("rotate"))}, antialias={fmt(b.get("antialias"))}, radius={fmt(b.get("radius"))}) at {e.loc()}'
+    chk.ob('C20-g', 'N-sibling', f.key, 'centre and ring segments are drawn with the same radius, orientation and antialiasing',
+           sib, det or f'{len(hx)} hexagon call site(s)', f.loc())
     chk.ob('C20-g', 'structural', f.key, 'rings 1..k are visited, each through hex_ring(ring)', ok_r,
            '' if ok_r else 'ring loop is not range(1, rings+1) over hex_ring(ring)', f.loc())
     chk.ob('C20-g', 'structural', f.key, 'running index incremented once per hexagon; only `drop` skips a segment', ok_s,
@@ -238,6 +253,8 @@ def segment_rules(chk, repo):
 
 
 def run(chk, repo, tier):
+    from .common import no_hidden_state
+    no_hidden_state(chk, repo, 'C20')
     chk.clause('C20-a', 'pad keeps the origin sample at the new origin on every path; copied extents equal', 32)
     chk.clause('C20-b', 'cubes: every bound on image axis k derives from array.shape[k+1] and shape[k]', 8)
     chk.clause('C20-d', 'subarray, slice_offset, mesh and boundary_slice agree with array_extent', 9)
